@@ -72,6 +72,24 @@ def run(ctx):
                                   dict(inp, impl=il, model=mcol), found_input=False)
             if i < 2:
                 rep.sample({"entries": es, "linetable": h, "positions": mpos[:120], "unit_lines": sul[:80]})
+            if i % 4 == 0:
+                # the tables are a function of (first line, table): an object queried once and then moved
+                # (replace / attribute assignment) answers like a fresh object at the new first line
+                for v in VERS:
+                    rr = w.r("relocate311", version=list(v), first=first, delta=1000, tab=h)
+                    rep.count(1, ("relocate", v, h))
+                    if "fresh_lines" not in rr:
+                        continue
+                    for how in ("replace", "assign"):
+                        if rr[how + "_lines"] != rr["fresh_lines"] or rr[how + "_positions"] != rr["fresh_positions"]:
+                            rep.violation("relocate:%d.%d:%s:%s" % (v[0], v[1], how, h),
+                                          "after co_lines()/co_positions() were queried once, moving the code object to first line %d by %s gives %s, a fresh object gives %s (%d.%d, table %s)"
+                                          % (first + 1000, "replace(co_firstlineno=...)" if how == "replace" else "assignment to co_firstlineno",
+                                             str(rr[how + "_lines"])[:100], str(rr["fresh_lines"])[:100], v[0], v[1], h),
+                                          {"version": list(v), "first": first, "linetable": h, "entries": es, "moved_by": how,
+                                           "actual": rr[how + "_lines"], "expected": rr["fresh_lines"],
+                                           "call": "co.co_lines(); co.co_positions(); co2 = co.replace(co_firstlineno=first+1000); co2.co_lines()"})
+                            break
         # ---------------- exception table
         xs = ["0:2:4:0:1", "1000:2000:3000:33:0", "-"] + [gen_lines.exc_entries(rng) for _ in range(N)]
         enc = drv.ask(["py.encexc " + e for e in xs])
